@@ -262,63 +262,80 @@ def execute_fe(arg):
             shutil.rmtree(d, ignore_errors=True)
 
 
+def _enumerate(arg):
+    """One TLC run of Components.tla (laws checked, expected sets printed) - executed in a pool, several at a time."""
+    family, graph, pi = arg
+    policy = POLICIES[graph][pi]
+    writable = 2 if (family == "main" and pi == 0 and graph == "chain") else 1
+    ov = dict(Types="TypesDef", PluginOf="PluginDef", DepsOf="DepsDef", SaveWhen="SaveDef", FEConfigs="FEDef")
+    if family == "main":
+        r, cases = V.tlc_cases("Components", dict(Writable=writable), ["Conforms", "PartialSavesNothing", "Minimal", "Emit"], overrides=ov,
+                               mc_defs=mc_defs(graph, policy, writable), timeout=2400, workers=2)
+        laws = ("Conforms", "PartialSavesNothing", "Minimal")
+    else:
+        r, cases = V.tlc_cases("Components", dict(Writable=1), ["ConformsFE", "NoWriteToReadonly", "EmitFE"], spec="SpecFE", overrides=ov,
+                               mc_defs=mc_defs(graph, policy, 1), timeout=2400, workers=2)
+        laws = ("ConformsFE", "NoWriteToReadonly")
+    return dict(family=family, graph=graph, pi=pi, policy=policy, writable=writable, cases=cases, laws=laws,
+                tlc=dict(generated=r.generated, distinct=r.distinct, depth=r.depth, ok=r.ok, violated=r.violated, wall_s=round(r.wall, 1)),
+                out=r.out[-1500:] if (not r.ok or r.violated) else "")
+
+
+def _execute_any(arg):
+    return execute(arg[1:]) if arg[0] == "main" else execute_fe(arg[1:])
+
+
 def run(chk):
     V.quiet_threads()
     quick = chk.tier == "quick"
     chk.rule = ("request = stored subset x target x save= subset x modifier (none, time range, selection, column projection, fuzzy, "
-                "allow_incomplete) x forbid_creation_of, for chain / multi-output / diamond graphs with several per-output save policies and "
-                "1 or 2 writable frontends; non-trivial = something is stored or an error is expected")
-    total = 0
-    for graph in GRAPHS:
-        tpl = template_dir(graph)
-        for pi, policy in enumerate(POLICIES[graph]):
-            writable = 2 if (pi == 0 and graph == "chain") else 1
-            r, cases = V.tlc_cases("Components", dict(Writable=writable), ["Conforms", "PartialSavesNothing", "Minimal", "Emit"],
-                                   overrides=dict(Types="TypesDef", PluginOf="PluginDef", DepsOf="DepsDef", SaveWhen="SaveDef", FEConfigs="FEDef"),
-                                   mc_defs=mc_defs(graph, policy, writable), timeout=1800, workers=4)
-            chk.add_tlc(r, f"Components {graph} policy {policy}")
-            if r.violated in ("Conforms", "PartialSavesNothing", "Minimal"):
-                raise V.MachineryError(f"Components.tla: {r.violated} fails in the model itself ({graph}, {policy}): " + r.out[-1500:])
-            V.tlc_must_finish(r, f"Components {graph}")
-            if quick:
-                rng = __import__("random").Random(chk.seed + pi)
-                cases = [c for c in cases if rng.random() < dict(chain=0.06, multi=0.012, multi_both=0.008, diamond=0.012)[graph]]
-            res = V.pmap(execute, [(graph, policy, writable, c, tpl) for c in cases])
-            total += len(cases)
-            for rr in res:
-                c = rr["case"]
-                chk.case(key=json.dumps([graph, pi, c], sort_keys=True), nontrivial=bool(c["stored"] or c["error"]))
-                chk.traces += 1
-                for b in rr["bad"]:
-                    chk.violation(f"C11:{graph}:policy{pi}:{json.dumps(dict(stored=sorted(c['stored']), target=c['target'], save=sorted(c['save']), mod=c['mod'], forbid=c['forbid']), sort_keys=True)}:{b.split(',')[0][:40]}",
-                                  f"{graph} graph, save policies {policy}, request {c}: {b}", dict(graph=graph, policy=policy, writable=writable, case=c))
-            if res:
-                chk.sample(dict(graph=graph, policy=policy, request=res[len(res) // 2]["case"]))
-    # several storage frontends with read-only / take_only / exclude filters
-    nfe = 0
-    for graph, pi in (("chain", 1), ("chain", 0), ("multi", 1)):
-        policy = POLICIES[graph][pi]
-        tpl = template_dir(graph)
-        r, cases = V.tlc_cases("Components", dict(Writable=1), ["ConformsFE", "NoWriteToReadonly", "EmitFE"], spec="SpecFE",
-                               overrides=dict(Types="TypesDef", PluginOf="PluginDef", DepsOf="DepsDef", SaveWhen="SaveDef", FEConfigs="FEDef"),
-                               mc_defs=mc_defs(graph, policy, 1), timeout=1800, workers=4)
-        chk.add_tlc(r, f"Components (frontend family) {graph} policy {policy}")
-        if r.violated in ("ConformsFE", "NoWriteToReadonly"):
-            raise V.MachineryError(f"Components.tla: {r.violated} fails in the model itself ({graph}, {policy}): " + r.out[-1500:])
-        V.tlc_must_finish(r, f"Components FE {graph}")
-        rng = __import__("random").Random(chk.seed + 100 + pi)
-        frac = (0.04 if graph == "chain" else 0.006) if quick else (0.5 if graph == "chain" else 0.08)
-        cases = [c for c in cases if rng.random() < frac]
-        res = V.pmap(execute_fe, [(graph, policy, c, tpl) for c in cases])
-        nfe += len(cases)
-        for rr in res:
-            c = rr["case"]
-            chk.case(key=json.dumps([graph, pi, "fe", c], sort_keys=True), nontrivial=True)
-            chk.traces += 1
+                "allow_incomplete) x forbid_creation_of, for chain / multi-output (one or both outputs consumed) / diamond graphs with several "
+                "per-output save policies and 1 or 2 writable frontends, each executed on both processors; second family: two frontends with "
+                "read-only / take_only / exclude filters; non-trivial = something is stored or an error is expected")
+    jobs = [("main", g, pi) for g in GRAPHS for pi in range(len(POLICIES[g]))] + [("fe", "chain", 1), ("fe", "chain", 0), ("fe", "multi", 1)]
+    enum = V.pmap(_enumerate, jobs, procs=8, warm=False)
+    work, meta = [], []
+    for e in enum:
+        what = f"Components {'(frontend family) ' if e['family'] == 'fe' else ''}{e['graph']} policy {e['policy']}"
+        chk.states += e["tlc"]["distinct"]
+        chk.transitions += e["tlc"]["generated"]
+        chk.tlc_runs.append(dict(what=what, **e["tlc"]))
+        if e["tlc"]["violated"] in e["laws"]:
+            raise V.MachineryError(f"Components.tla: {e['tlc']['violated']} fails in the model itself ({e['graph']}, {e['policy']}): " + e["out"])
+        if not e["tlc"]["ok"] or len(e["cases"]) != e["tlc"]["distinct"]:
+            raise V.MachineryError(f"{what}: TLC did not finish / {len(e['cases'])} cases for {e['tlc']['distinct']} states: " + e["out"])
+        rng = __import__("random").Random(chk.seed + e["pi"] + (100 if e["family"] == "fe" else 0))
+        g = e["graph"]
+        if e["family"] == "main":
+            frac = dict(chain=0.06, multi=0.012, multi_both=0.008, diamond=0.012)[g] if quick else 1.0
+        else:
+            frac = (0.04 if g == "chain" else 0.006) if quick else (0.5 if g == "chain" else 0.08)
+        cases = [c for c in e["cases"] if rng.random() < frac]
+        tpl = template_dir(g)
+        for c in cases:
+            work.append(("main", g, e["policy"], e["writable"], c, tpl) if e["family"] == "main" else ("fe", g, e["policy"], c, tpl))
+            meta.append(e)
+    res = V.pmap(_execute_any, work)
+    nfe = total = 0
+    for rr, e, w in zip(res, meta, work):
+        c = rr["case"]
+        g, pi, policy = e["graph"], e["pi"], e["policy"]
+        chk.traces += 1
+        if e["family"] == "main":
+            total += 1
+            chk.case(key=json.dumps([g, pi, c], sort_keys=True), nontrivial=bool(c["stored"] or c["error"]))
             for b in rr["bad"]:
-                chk.violation(f"C11:frontends:{graph}:policy{pi}:{json.dumps(dict(fe=c['fe'], has=c['has'], target=c['target'], save=c['save']), sort_keys=True)}:{b.split(',')[0][:40]}",
-                              f"{graph} graph, save policies {policy}, frontends {c['fe']} holding {c['has']}, target {c['target']}, save={c['save']}: {b}",
-                              dict(graph=graph, policy=policy, fe_case=c))
+                chk.violation(f"C11:{g}:policy{pi}:{json.dumps(dict(stored=sorted(c['stored']), target=c['target'], save=sorted(c['save']), mod=c['mod'], forbid=c['forbid']), sort_keys=True)}:{b.split(',')[0][:40]}",
+                              f"{g} graph, save policies {policy}, request {c}: {b}", dict(graph=g, policy=policy, writable=e["writable"], case=c))
+        else:
+            nfe += 1
+            chk.case(key=json.dumps([g, pi, "fe", c], sort_keys=True), nontrivial=True)
+            for b in rr["bad"]:
+                chk.violation(f"C11:frontends:{g}:policy{pi}:{json.dumps(dict(fe=c['fe'], has=c['has'], target=c['target'], save=c['save']), sort_keys=True)}:{b.split(',')[0][:40]}",
+                              f"{g} graph, save policies {policy}, frontends {c['fe']} holding {c['has']}, target {c['target']}, save={c['save']}: {b}",
+                              dict(graph=g, policy=policy, fe_case=c))
+    if res:
+        chk.sample(dict(graph=meta[len(res) // 2]["graph"], policy=meta[len(res) // 2]["policy"], request=res[len(res) // 2]["case"]))
     chk.extra["frontend_cases_executed"] = nfe
     chk.exhaustive = False
     chk.extra["requests_executed"] = total
